@@ -1,3 +1,9 @@
 #![allow(dead_code, unused_imports)]
 #[cfg(kani)]
+mod util;
+#[cfg(kani)]
+mod c11;
+#[cfg(kani)]
+mod c15;
+#[cfg(kani)]
 mod c19;
